@@ -1,8 +1,10 @@
 /-
   C03, part 6: the random-access decoder.  `parse*V` are the field parsers written as pure functions of the tag, the
-  record so far and the outcome (bytes, error) of the one read the tag may need.  GENERATED from Imeta/Model/Exif.lean
-  by renaming (tools: see DESIGN 0.1); the theorems below prove that the streaming parsers compute exactly these functions
-  of `readTagValue r t`, so the text of this file is checked, not trusted.
+  record so far and the outcome (bytes, error) of the one read the tag may need.  The definitions were produced from the
+  text of Imeta/Model/Exif.lean by mechanical renaming (drop the reader state, pass `buf`/`err` instead of
+  `readTagValue r t`); the theorems below prove that the streaming parsers compute exactly these functions of
+  `readTagValue r t`, so the text of this file is checked, not trusted: when the model's parsers change, these proofs stop
+  checking until the definitions follow.
 -/
 import Imeta.Lemmas.ExifOne
 import Imeta.Lemmas.ExifWalk
